@@ -518,6 +518,13 @@ def enum_subprocess(tier):
             yield {'tool': 'kthlist2pebbling', 'args': a, 'stdin': text, 'rseed': 0}
     for a in (['peb', 'kthlist', '-'], ['kcolor', '2', 'kthlist', '-'], ['php', 'matrix', '-']):
         yield {'tool': 'cnfgen', 'args': a, 'stdin': '2 2\n1 0\n1 1\n' if 'matrix' in a else kth, 'rseed': 0}
+    # a graph argument read from the standard input, in every format keyword (and without one), with text that is not such a graph
+    for tool in ('cnfgen', 'pbgen'):
+        for a in (['peb', 'kthlist', '-'], ['kcolor', '2', 'kthlist', '-'], ['kcolor', '2', 'gml', '-'], ['kcolor', '2', 'dot', '-'],
+                  ['kcolor', '2', 'dimacs', '-'], ['php', 'matrix', '-'], ['php', 'kthlist', '-'], ['php', 'gml', '-'], ['kcolor', '2', '-'],
+                  ['stone', '2', 'gml', '-'], ['tseitin', 'first', 'dimacs', '-', 'addedges', '1']):
+            for text in ('garbage\n', '', '3\n1 : 0\n2 : 7 0\n', 'graph [\n node [ id 1 ]\n', '2 2\n1 0\n1\n', 'p edge 2 1\ne 1 5\n'):
+                yield {'tool': tool, 'args': a, 'stdin': text, 'rseed': 0}
 
 
 # ---------------------------------------------------------------------------
@@ -604,7 +611,7 @@ SUBCHECKS = [
              rule="valid command lines of every sub-command (graph constructions, numeric forms, -T chains, every output option, -o into files and directories) with 0..3 mutations: numbers replaced by -1/0/1/2/3/5/6/x/1.5/empty, tokens deleted/duplicated, unknown options, graph constructions replaced by missing/directory/empty/garbage/wrong-format/binary/unreadable files with every format keyword, 'save' into bad places (a directory, a directory that does not exist, unknown extensions), constructions of the wrong graph type, extra tokens, -h anywhere; cnfshuffle and kthlist2pebbling with option soups and good/garbage stdin; oracle: exactly one of {exit 0 + complete document accepted by the strict reader of the format, help + exit 0, non-zero exit + empty stdout + non-empty stderr with every line starting with the comment marker}; never an escaping exception or traceback; non-trivial: the argv names a sub-command",
              required_labels=TOOLS + ['success', 'clean-error', 'help', 'bad-file', 'directory-argument']),
     SubCheck('subprocess', run_subprocess_case, strategy=strat_case, enumerate_cases=enum_subprocess, quick=32, thorough=2500,
-             rule="the same generator, each command line run as a real process (python -c 'from <tool module> import main; main()') and compared with the in-process verdict",
+             rule="the same generator, each command line run as a real process; enumerated: commands that read a formula or a graph from the standard input (every format keyword, and none) fed through a pipe with good and with malformed text (python -c 'from <tool module> import main; main()') and compared with the in-process verdict",
              required_labels=['subprocess']),
     SubCheck('environment', run_environment, enumerate_cases=enum_environment,
              rule="real processes under five environments (default, stdout limited to ASCII, to latin-1, C locale without UTF-8 mode, UTF-8 mode) x command lines of the four tools that are legal but not ASCII (numbers typed with fullwidth digits, graph files and -o files with accented / Greek names, comments with accented letters on stdin), every output format, to stdout and to files (quick: a quarter, half under ASCII stdout); plus every tool writing to a device on which every write fails (/dev/full, as standard output and as -o file): non-zero exit status and a shielded message, never exit 0; same oracle as 'hostile' on the process; non-trivial: a non-ASCII argument or a non-default environment",
